@@ -161,6 +161,14 @@ def handle (langs : Array Language) (line : String) : String :=
         let o := checkCommand (quiet == 1) files.toList
         return s!"ok {o.exitCode} {if o.printed then 1 else 0} {if o.saysRefactoring then 1 else 0} {o.count} {o.listed.length}" ++
           String.join (o.listed.map fun l => s!" {l.length}" ++ String.join (l.map fun v => s!" {v}"))
+    | "qpp" => run do
+        let p0 ← nextNat; let p1 ← nextNat; let p2 ← nextNat; let p3 ← nextNat
+        let r := Gen.Logic.quality_profile_percentage p0 p1 p2 p3
+        let vt := Gen.Logic.verdict_text r.1 r.2.1 r.2.2.1 r.2.2.2
+        let vm := Gen.Logic.verdict_markdown r.1 r.2.1 r.2.2.1 r.2.2.2
+        let b (p : Prop) [Decidable p] : String := if p then "1" else "0"
+        return s!"ok {r.1} {r.2.1} {r.2.2.1} {r.2.2.2} {vt.1} {vt.2} {vm.1} {vm.2} " ++
+          b (Gen.Logic.summary_red r.2.2.2) ++ " " ++ b (Gen.Logic.summary_orange r.2.2.1) ++ " " ++ b (Gen.Logic.summary_green r.2.2.1 r.2.2.2)
     | "nocl" => run do
         let v ← parseStr
         return (if isNoclText v then "ok T" else "ok F")
